@@ -1752,8 +1752,11 @@ post_t * instance_t::parse_post(char *          line,
                 << "Overwrite null posting with zero diff with " << amt - amt);
         }
       } else {
-        // balance assertion
-        diff -= post->amount.strip_annotations(keep_details_t());
+        // balance assertion: the posting itself counts towards the balance being
+        // asserted, but only in the commodity the assertion is about
+        amount_t this_amt(post->amount.strip_annotations(keep_details_t()));
+        if (! amt.has_commodity() || this_amt.commodity() == amt.commodity())
+          diff -= this_amt;
         if (! no_assertions && ! diff.is_zero()) {
           balance_t tot = (-diff + amt).strip_annotations(keep_details_t());
           DEBUG("textual.parse", "Balance assertion: off by " << diff << " (expected to see " << tot << ")");
